@@ -3,7 +3,7 @@ import GqlModel.Validate.Engine
 namespace Gql.Validate.Rules
 open Gql Gql.Validate
 
-def noUndefinedVariablesStep (_ : Schema) (_ : QueryDoc) (e : Event) : List RErr :=
+def noUndefinedVariablesStep (_ : SV) (_ : QueryDoc) (e : Event) : List RErr :=
   match e.p, e.cur with
   | .value v _ _, some op =>
     if v.kind != .variable || (e.links.varDef v.pos.start).isSome then []
